@@ -6,6 +6,43 @@ func init() {
 	vrtHarnesses["VerifC04Cuts"] = VerifC04Cuts
 	vrtHarnesses["VerifC04Long"] = VerifC04Long
 	vrtHarnesses["VerifC04Three"] = VerifC04Three
+	vrtHarnesses["VerifC04Dense"] = VerifC04Dense
+}
+
+// VerifC04Dense: an escape-dense frame of maximal size (every body byte needs escaping, so the
+// escaped frame is about twice the read buffer) followed by two short frames, delivered in full
+// 1023-byte reads, in reads of a symbolic-free smaller size, and frame by frame.
+func VerifC04Dense() {
+	bl := []int{1023, 1000, 600}[vrt_Choose("bodyLen", 3)]
+	f1 := vGenFrame("dense", 0x0200, false, 0, 0)
+	f1.body = make([]byte, bl)
+	for i := range f1.body {
+		f1.body[i] = 0x7d
+	}
+	f1.body[0] = 0x7e
+	vNoSpecialChecksum(f1)
+	f2 := vGenFrame("b", 0x0002, false, 0, 0)
+	vNoSpecialChecksum(f2)
+	f3 := vGenFrame("c", 0x0100, false, 2, 0)
+	vNoSpecialChecksum(f3)
+	stream := append(append(append([]byte{}, f1.bytes()...), f2.bytes()...), f3.bytes()...)
+	size := []int{1023, 1000, 512, 700}[vrt_Choose("readSize", 4)]
+	r := vNewReader()
+	var got []vSnap
+	for off := 0; off < len(stream); off += size {
+		end := off + size
+		if end > len(stream) {
+			end = len(stream)
+		}
+		msgs, err := r.read(stream[off:end])
+		vrt_Assert(err == nil, "valid stream reported as an error")
+		for _, m := range msgs {
+			got = append(got, vSnapOf(m))
+		}
+	}
+	vrt_Assert(len(got) == 3, "three frames must give three messages")
+	vrt_Assert(got[0].id == 0x0200 && vrt_BytesEq(got[0].body, f1.body) && got[1].id == 0x0002 && got[1].serial == f2.serial && got[2].id == 0x0100 && vrt_BytesEq(got[2].body, f3.body), "messages differ or order changed")
+	vrt_Cover("escaped-frame-twice-the-buffer", len(f1.bytes()) > 2000)
 }
 
 // VerifC04Three: three escape-free frames of unequal length, every 1-cut and 2-cut of the stream:
